@@ -19,6 +19,7 @@ the expected correlation as terms that the generic evaluator evaluates.
 Python renders inputs, calls the API, evaluates terms and compares; it holds no definition.
 """
 import collections
+import concurrent.futures as cf
 import csv
 import json
 import zlib
@@ -83,8 +84,8 @@ def variants_of(case):
     for r in case.get("ireps", []):
         stress = "products-leave-dtype" if r["prod"] else "sums-leave-dtype" if r["sum"] else "in-range"
         out.append({"dtype": r["dt"], "stress": stress})
-    for f in case.get("freps", []):
-        out.append({"dtype": f, "stress": "exact-in-type"})
+    for f in case.get("freps", []):    # tol: the spec's comparison tolerance for a series held in that precision
+        out.append({"dtype": f["dt"], "stress": "exact-in-type", "tol": ev(f["tol"])})
     return out
 
 
@@ -186,7 +187,8 @@ def replay_one(chk, case, api, expected, texp, scale, var, ts_type, dt_int, csvd
     brief = {k: case[k] for k in ("T", "N", "rank", "dim", "cplx", "ts", "dt", "val", "kind")}
     brief.update(scale=scale, var=var, ts_type=ts_type, dt_int=dt_int)
     # the clause names the representation: storage type and what leaves its range / layout
-    tag = "" if not var else (":" + var["dtype"] + ":" + var["stress"] if "dtype" in var else ":layout-" + var["layout"])
+    shape = ("scalar", "vector", "tensor")[case["rank"]]
+    tag = "" if not var else (f":{shape}:{var['dtype']}:{var['stress']}" if "dtype" in var else f":{shape}:layout-{var['layout']}")
     outfile = os.path.join(csvdir, "tc.csv") if csvdir else ""
     before = cond.copy()
     try:
@@ -215,8 +217,9 @@ def replay_one(chk, case, api, expected, texp, scale, var, ts_type, dt_int, csvd
     if cobs[0] != 1.0:
         chk.violation("LagZeroIsOne" + tag, info)
         return False
+    tol = var.get("tol", 1e-9) if var else 1e-9
     for k in range(T):
-        if not close(cobs[k], expected[k]):
+        if not close(cobs[k], expected[k], tol, tol):
             chk.violation("AlgorithmEqualsDefinition:" + case["kind"] + tag, {**info, "lag": k})
             return False
     if csvdir:
@@ -241,7 +244,9 @@ def _rand_leaf(rng, cplx, vmax):
     return [rng.randint(-vmax, vmax), rng.randint(-vmax, vmax) if cplx else 0]
 
 
-def gen_record(rng, api):
+def gen_record(rng, api, long_T=None):
+    """one recorded call; long_T = (lo, hi): a LONG series (the trace spec then states the terminal loop state
+    directly instead of stepping through T (T + 1) / 2 iterations; small values keep its integer sums in 32 bits)"""
     T = rng.choice([1, 2, 3, 4, 5, 6, 7, 9, 12, 16, 20])
     N = rng.randint(1, 6)
     rank = rng.choice([0, 1, 2])
@@ -250,6 +255,11 @@ def gen_record(rng, api):
     S = rng.choice([1, 10, 100])
     vmax = 300
     style = rng.choice(["lin", "lin", "log", "uneven", "lastodd", "slip"])
+    if long_T:
+        T = rng.randint(*long_T)
+        N = rng.randint(1, 3)
+        vmax = 30
+        style = rng.choice(["lin", "lin", "lin", "uneven", "lastodd", "slip"])
     t0 = rng.choice([0, 0, 17, 1000])
     iv = rng.choice([1, 2, 10, 500])
     if style == "lin":
@@ -300,8 +310,11 @@ def gen_record(rng, api):
         ctx["columns"] = cols
         rec["obs"] = {"rows": -1, "tq": [0] * T, "tq_ok": 0, "one": 0}
         return rec, ctx
-    tq = [int(round(x / dt)) for x in tobs]
-    ok = all(abs(tq[k] * dt - tobs[k]) <= 1e-9 * (1 + abs(tobs[k])) for k in range(len(tobs)))
+    try:
+        tq = [int(round(x / dt)) for x in tobs]
+        ok = all(abs(tq[k] * dt - tobs[k]) <= 1e-9 * (1 + abs(tobs[k])) for k in range(len(tobs)))
+    except (ValueError, OverflowError):      # non-finite time axis: an observation for the spec to reject
+        tq, ok = [0] * len(tobs), False
     if len(tq) != T:
         tq = (tq + [0] * T)[:T]
     rec["obs"] = {"rows": len(cobs), "tq": tq, "tq_ok": int(ok), "one": int(len(cobs) > 0 and cobs[0] == 1.0)}
@@ -339,7 +352,7 @@ def validate_records(records, timeout=1800):
         shutil.rmtree(tmp, ignore_errors=True)
 
 
-def check_trace(chk, recs, ctxs, label="TraceTimeCorr", max_rejects=4):
+def check_trace(chk, recs, ctxs, label="TraceTimeCorr", max_rejects=4, tol=1e-9):
     """Validate all records (continuing after rejections) and compare the printed terms."""
     offset = 0
     nrej = 0
@@ -364,7 +377,7 @@ def check_trace(chk, recs, ctxs, label="TraceTimeCorr", max_rejects=4):
             info = {"dir": "B", "record": rec, "kind": p["kind"], "expected_corr": exp, "observed_corr": obs}
             bad = None
             for k in range(rec["T"]):
-                if not close(obs[k], exp[k]):
+                if not close(obs[k], exp[k], tol, tol):
                     bad = k
                     break
             if bad is not None:
@@ -389,19 +402,54 @@ def check_trace(chk, recs, ctxs, label="TraceTimeCorr", max_rejects=4):
     return accepted
 
 
+def finish(chk):
+    """one representative of every distinct clause first (the report prints the first 20 violations), and the
+    clause statistics in the evidence"""
+    seen, first, rest = set(), [], []
+    for v in chk.violations:
+        (rest if v[0] in seen else first).append(v)
+        seen.add(v[0])
+    chk.violations[:] = first + rest
+    if chk.violations:
+        chk.extra["violated_clauses"] = dict(collections.Counter(v[0] for v in chk.violations))
+    return chk.finish()
+
+
 def corrupt_one_field(chk, recs):
-    """Binding self-test of the trace spec: one observed time-axis entry of one ACCEPTED record is changed;
-    TraceTimeCorr must reject exactly that record with clause TimeAxis."""
-    cand = [r for r in recs if r["T"] >= 2][:3]
+    """Binding self-test of the trace spec: one observed time-axis entry of one record is changed; TraceTimeCorr
+    must reject exactly that record with clause TimeAxis.  Only records the specification ACCEPTS uncorrupted are
+    used (a record it rejects is a reported violation of the library, never a machinery error): the candidates
+    come from the records check_trace saw accepted and, should the outcome still be unexpected, are validated
+    uncorrupted before anything is blamed on the machinery; without three accepted records (or when they turn out
+    not to be accepted) the self-test runs on a synthetic trace."""
+    synthetic = [{"T": 3, "N": 1, "rank": 0, "dim": 1, "cplx": 0, "S": 1, "ts": [0, 5, 10 + u], "dt": [1, 4],
+                  "val": [[[1 + u, 0]], [[2, 0]], [[3, 0]]],
+                  "obs": {"rows": 3, "tq": [0, 5, 10 + u], "tq_ok": 1, "one": 1}} for u in (0, 1, 2)]
+    cand = [r for r in recs if 2 <= r["T"] <= 24][:3]      # recs: records check_trace saw accepted
+    source = "recorded"
     if len(cand) < 3:
-        return
-    bad = json.loads(json.dumps(cand))
-    bad[1]["obs"]["tq"][-1] += 1
-    r, rej, _ = validate_records(bad)
-    chk.add_tlc(r, "TraceTimeCorr corrupt-one-field")
+        cand, source = synthetic, "synthetic"
+        chk.extra["corrupt_one_field_note"] = "fewer than three accepted recorded calls: synthetic trace used"
+
+    def attempt(trace):
+        bad = json.loads(json.dumps(trace))
+        bad[1]["obs"]["tq"][-1] += 1
+        r, rej, _ = validate_records(bad)
+        chk.add_tlc(r, "TraceTimeCorr corrupt-one-field")
+        return rej
+    rej = attempt(cand)
+    if (rej is None or rej[0] != 1 or rej[1] != "TimeAxis") and source == "recorded":
+        # is it the corruption that went unnoticed, or are the recorded candidates themselves not accepted?
+        r0, rej0, _ = validate_records(json.loads(json.dumps(cand)))
+        chk.add_tlc(r0, "TraceTimeCorr corrupt-one-field (uncorrupted)")
+        if rej0 is not None:
+            chk.extra["corrupt_one_field_note"] = (f"recorded candidates are not accepted uncorrupted ({rej0[1]}; a "
+                                                   "violation reported by the trace check): synthetic trace used")
+            source = "synthetic"
+            rej = attempt(synthetic)
     if rej is None or rej[0] != 1 or rej[1] != "TimeAxis":
-        raise MachineryError(f"corrupted trace record was not rejected at that record (got {rej})")
-    chk.extra["corrupt_one_field_rejected"] = True
+        raise MachineryError(f"corrupted {source} trace record was not rejected at that record (got {rej})")
+    chk.extra["corrupt_one_field_rejected"] = source
 
 
 # --------------------------------------------------------------------------
@@ -412,14 +460,20 @@ def run(tier, replay=None):
     common.import_lib()
     chk = Check("C14", tier)
     chk.rule = ("A: TLC runs the (n, nn) loop state machine of TimeCorr.tla on every series of the MC_TimeCorr scope "
-                "(hashed families T=1..5, ranks 0/1/2, real/complex, 8 timestep patterns; exhaustive value assignments "
-                "for small T), invariants = clauses of C14, one case per series replayed into time_correlation "
-                "(both columns, lag zero == 1.0, CSV). B: seeded random decimal series T<=20 recorded from the real "
-                "code; TraceTimeCorr.tla carries the loop state, decides rows / integer time axis / lag-zero and prints "
-                "expected terms. distinct_nontrivial = cases with T >= 2.")
+                "(hashed families T=1..5, ranks 0/1/2, real/complex, 10 timestep patterns; exhaustive value assignments "
+                "for small T; part rep: value sets sized to the ranges of bool/int8/uint8/int16/uint16, wide series N up to "
+                "1300 (quick) / 10007, labels around 2e9; part long: T = 257..300 (quick) / 256..1100, terminal loop state "
+                "stated from the definition), invariants = clauses of C14, one case per series replayed into time_correlation "
+                "(both columns, lag zero == 1.0, CSV) in float64/complex128 and in the storage types the spec says hold the "
+                "series (with what leaves their range) or evaluate it exactly, Fortran-ordered / strided / read-only arrays, "
+                "integer dt, numpy-typed timestep labels. B: seeded random decimal series T<=20 plus long ones (T 257..420 "
+                "quick / ..1100) recorded from the real code; TraceTimeCorr.tla carries the loop state, decides rows / integer "
+                "time axis / lag-zero and prints expected terms. distinct_nontrivial = cases with T >= 2.")
     chk.assumptions = ["float comparison at 1e-9 of values the spec gives exactly (rational) or as a term",
                        "series with zero lag-zero value (all values 0 in every origin) are outside the property (0/0)",
-                       "which factor carries the conjugate is not observable in the real part; only its presence is decided"]
+                       "which factor carries the conjugate is not observable in the real part; only its presence is decided",
+                       "an integer / bool array is a series of real numbers: the storage type must hold the values, not the products and sums",
+                       "series rendered in float16 / float32 / complex64 (only where the definition's arithmetic is exact in the type) are compared at the spec's tolerance 64 T ulp(type), not at 1e-9"]
     try:
         from PyMatterSim.dynamic.time_corr import time_correlation as api
     except Exception as e:
@@ -435,12 +489,17 @@ def run(tier, replay=None):
             # re-derive the expectation from the spec: run the trace spec on the same series
             rec = {**{k: c[k] for k in ("T", "N", "rank", "dim", "cplx", "ts", "dt", "val")}, "S": c.get("scale", 1)}
             recs, ctxs = [rec], [{}]
+            var, ts_type, dt_int = c.get("var"), c.get("ts_type", "int"), c.get("dt_int", False)
+            print("rendering         :", {"var": var, "ts_type": ts_type, "dt_int": dt_int, "scale": rec["S"]})
         else:
             recs, ctxs = [case["record"]], [{}]
+            var, ts_type, dt_int = None, "int", False
         rec = recs[0]
         dt = rec["dt"][0] / rec["dt"][1]
+        tol = var.get("tol", 1e-9) if var else 1e-9
         try:
-            df = call_api(api, rec["ts"], rec["N"], make_condition(rec["val"], rec["cplx"], rec.get("S", 1)), dt)
+            df = call_api(api, rec["ts"], rec["N"], build_cond(rec["val"], rec["cplx"], rec.get("S", 1), var),
+                          rec["dt"][0] if dt_int else dt, ts_type=ts_type)
             tobs, cobs, _ = project(df)
             tq = [int(round(x / dt)) for x in tobs]
             rec["obs"] = {"rows": len(cobs), "tq": (tq + [0] * rec["T"])[:rec["T"]], "tq_ok": 1,
@@ -459,7 +518,7 @@ def run(tier, replay=None):
             print("expected t        :", [ev(t) for t in printed[0]["tT"]])
         if rej:
             print("trace spec rejects the record, clause:", rej[1])
-        check_trace(chk, recs, ctxs)
+        check_trace(chk, recs, ctxs, tol=tol)
         return chk.finish()
 
     # ---- direction A: model checking + emission + replay
@@ -470,11 +529,19 @@ def run(tier, replay=None):
         conj = 0
         stats = collections.Counter()
         sizes = {"maxT": 0, "maxN": 0, "long_linear": 0, "long_log": 0, "wide": 0}
-        for part in ("fam", "exh", "rep", "long"):
-            r = run_tlc_sharded("MC_TimeCorr",
-                                dict(constants={"Tier": tier, "Part": part, "SEED": common.SEED},
-                                     invariants=INVS, properties=PROPS),
-                                nshards=nsh, coverage=(tier == "thorough"))
+        parts = ("fam", "exh", "rep", "long")
+
+        def model(part):
+            return run_tlc_sharded("MC_TimeCorr",
+                                   dict(constants={"Tier": tier, "Part": part, "SEED": common.SEED},
+                                        invariants=INVS, properties=PROPS),
+                                   nshards=nsh, coverage=(tier == "thorough"))
+        # the model runs of the next part overlap the replay of the previous one (two parts in flight)
+        pool = cf.ThreadPoolExecutor(max_workers=2)
+        futs = [pool.submit(model, part) for part in parts]
+        pool.shutdown(wait=False)
+        for part, fut in zip(parts, futs):
+            r = fut.result()
             require_model_ok(r, f"MC_TimeCorr {part}")
             chk.add_tlc(r, f"MC_TimeCorr {part}")
             if not r.cases:
@@ -531,8 +598,11 @@ def run(tier, replay=None):
     rng = random.Random(common.SEED * 7919 + 14)
     nrec = 250 if tier == "quick" else 3000
     recs, ctxs = [], []
-    for _ in range(nrec):
-        rec, ctx = gen_record(rng, api)
+    nlong = 3 if tier == "quick" else 10
+    for j in range(nrec + nlong):
+        # long series (size thresholds of fast paths): frame counts drawn between 257 and 420 (quick) / 1100
+        long_T = None if j < nrec else (257, 420) if tier == "quick" or j % 2 else (421, 1100)
+        rec, ctx = gen_record(rng, api, long_T)
         recs.append(rec)
         ctxs.append(ctx)
     accepted = check_trace(chk, recs, ctxs)
@@ -540,4 +610,4 @@ def run(tier, replay=None):
     if tier == "thorough" and chk.coverage_actions.get("Acc", 0) == 0:
         raise MachineryError("action Acc has zero coverage: the loop state machine was not exercised")
     chk.samples.append({"trace_record": {k: recs[0][k] for k in ("T", "N", "rank", "dim", "cplx", "ts", "dt", "obs")}})
-    return chk.finish()
+    return finish(chk)
